@@ -59,12 +59,18 @@ def run(ctx):
     # D2 event
     ev = repo.func(TW, f"{CL}.event")
     t = A.norm(ev.node)
-    ok = "row = {'seq_num': doc['seq_num'], 'time': doc['time'], **doc['data']}" in t and "row.update({f'ts_{k}': v for k, v in doc['timestamps'].items()})" in t and "data_cache.append(row)" in t
+    ts_update = "row.update({f'ts_{k}': v for k, v in doc['timestamps'].items()})" in t or any(
+        isinstance(s_, ast.For) and A.norm(s_.iter) == "doc['timestamps'].items()" and isinstance(s_.target, ast.Tuple) and len(s_.target.elts) == 2
+        and [A.norm(x) for x in A.body(s_.body)] == [f"row[f'ts_{{{A.norm(s_.target.elts[0])}}}'] = {A.norm(s_.target.elts[1])}"] for s_ in ev.node.body)
+    ok = "row = {'seq_num': doc['seq_num'], 'time': doc['time'], **doc['data']}" in t and ts_update and "data_cache.append(row)" in t
     ctx.ob("C46.D2-batch-write-then-clear", cname(ev, None, "one row per event: seq_num, time, data, ts_ columns"), ok, "" if ok else "row construction changed", where=where(ev, ev.node))
     # the write and the clear, in that order, exactly when the batch is full: `if len >= size: write; clear` or the guard form
     # `if len < size: return` + write; clear (len() is an int, the batch size a number: the two tests are complementary)
     ge = q.cfg(ev, q.quiet_policy(repo))
-    wr = [s_ for s_ in A.walk_stmts(ev.node.body) if A.norm(s_) == "self._write_internal_data(data_cache, desc_node=self._desc_nodes[desc_uid])"]
+    def _x(e):
+        return A.norm(q.expand(ev.node, e, keep=("data_cache", "doc")))
+    wr = [s_ for s_ in A.walk_stmts(ev.node.body) if isinstance(s_, ast.Expr) and isinstance(s_.value, ast.Call) and A.call_name(s_.value) == "self._write_internal_data"
+          and _x(s_.value) == "self._write_internal_data(data_cache, desc_node=self._desc_nodes[doc['descriptor']])"]
     cl = [s_ for s_ in A.walk_stmts(ev.node.body) if A.norm(s_) == "data_cache.clear()"]
     ok = len(wr) == 1 and len(cl) == 1
 
@@ -79,10 +85,13 @@ def run(ctx):
         sib = getattr(blk, "body", []) if wr[0] in getattr(blk, "body", []) else getattr(blk, "orelse", [])
         ok = full_only(wr[0]) and full_only(cl[0]) and cl[0] in sib and sib.index(cl[0]) == sib.index(wr[0]) + 1
         # and a full batch always reaches them: no other branching between the append and the write
-        ok = ok and sum(1 for s_ in A.walk_stmts(ev.node.body) if isinstance(s_, (ast.If, ast.Try, ast.While, ast.For))) == 1
+        app_ = [s_ for s_ in ev.node.body if A.norm(s_) == "data_cache.append(row)"]
+        after_ = ev.node.body[ev.node.body.index(app_[0]) + 1:] if app_ else []
+        ok = ok and bool(app_) and sum(1 for s_ in A.walk_stmts(after_) if isinstance(s_, (ast.If, ast.Try, ast.While, ast.For))) == 1
     ctx.ob("C46.D2-batch-write-then-clear", cname(ev, None, "full batch: write the cache, then clear it"), ok,
            "" if ok else "rows are written twice / dropped at the batch boundary", nontrivial=True, where=where(ev, ev.node))
-    ok = "data_cache = self._internal_data_cache[desc_name]" in t and "desc_name = self._desc_nodes[desc_uid].item['id']" in t
+    dc_ = [s_ for s_ in ev.node.body if isinstance(s_, ast.Assign) and A.norm(s_.targets[0]) == "data_cache"]
+    ok = len(dc_) == 1 and _x(dc_[0].value) == "self._internal_data_cache[self._desc_nodes[doc['descriptor']].item['id']]"
     ctx.ob("C46.D2-batch-write-then-clear", cname(ev, None, "rows cached per stream (keyed by the stream's name, not by the descriptor uid)"), ok,
            "" if ok else "the batch cache is no longer keyed by the stream name: a stream with two descriptors gets two caches which are flushed independently, "
            "so the table is no longer in seq_num order", nontrivial=True, where=where(ev, ev.node))
